@@ -114,16 +114,20 @@ def reduce (O : Oracle) (tie : PTerm → Bool) (ctx : TL) : TL → TL → Except
     | .infeasible => .error .valueError             -- `i += 1` then `raise`
     | .stuck => .error .oracleStuck
 
-/-- `PolyhedralTermList.simplify`.  `Γ = none` is the call without context (`context=None`); any context
-    object, even an empty one, takes the first branch (`if context:` is object truthiness). -/
-def simplify (O : Oracle) (tie : PTerm → Bool) (l : TL) (Γ : Option TL) : Except Err TL :=
-  let rows := match Γ with | some g => Gen.list_diff l g | none => l
-  let ctx := match Γ with | some g => g | none => []
+/-- `reduce_polytope(a, b, a_help, b_help)` with its early returns; `rows`/`ctx` are the rows of the two matrices -/
+def simplifyCore (O : Oracle) (tie : PTerm → Bool) (rows ctx : TL) : Except Err TL :=
   let m := (Gen.list_union rows.vars ctx.vars).length
   let helper : Bool := decide (ctx.length * m > 0)
   if rows.length = 0 then .ok rows
   else if rows.length = 1 && !helper then .ok rows
   else reduce O tie (if helper then ctx else []) [] rows
+
+/-- `PolyhedralTermList.simplify`.  `Γ = none` is the call without context (`context=None`); any context
+    object, even an empty one, takes the first branch (`if context:` is object truthiness). -/
+def simplify (O : Oracle) (tie : PTerm → Bool) (l : TL) (Γ : Option TL) : Except Err TL :=
+  match Γ with
+  | some g => simplifyCore O tie (Gen.list_diff l g) g
+  | none => simplifyCore O tie l []
 
 /-- `PolyhedralTermList.optimize` -/
 def optimize (O : Oracle) (l : TL) (obj : Lin) (maximize : Bool) : Except Err (Option Rat) :=
